@@ -779,6 +779,21 @@ func c04Reproduction(r *an.Run) {
 				whole = true
 			}
 		}
+		// the helper may hand back the record itself (the run and its region in one struct): the run is then
+		// the record's only list of values
+		if c, ok := v.(*ssa.Call); ok && an.StaticCallee(c) == r.P.Func(engine, "lookupSliceDotsSkipped") {
+			if st, isStruct := c.Type().Underlying().(*types.Struct); isStruct {
+				lists := 0
+				for i := 0; i < st.NumFields(); i++ {
+					if an.ShortType(st.Field(i).Type()) == "[]reflect.Value" {
+						lists++
+					}
+				}
+				if lists == 1 {
+					whole = true
+				}
+			}
+		}
 		if _, isSub := v.(*ssa.Slice); isSub {
 			if al, ok := v.(*ssa.Slice).X.(*ssa.Alloc); !ok || al.Comment != "varargs" {
 				whole = false
